@@ -29,7 +29,11 @@ func verifC13Pkey(realm, key string) (out string, panicked bool) {
 	// natively (no stand-ins) the machine below makes the real
 	// execctx.CurrentRealm answer `realm`: run stage, one base frame whose
 	// package is the realm
+	// The machine's storage realm (m.Realm) is another realm's, as it is
+	// during a non-crossing call into an object borrowed from that realm: the
+	// parameter namespace must follow the current realm, not the storage realm.
 	m := &gno.Machine{Stage: gno.StageRun, Context: execctx.ExecContext{},
+		Realm:  &gno.Realm{Path: "gno.land/r/borrowed"},
 		Frames: []gno.Frame{{LastPackage: &gno.PackageValue{PkgPath: realm}}}}
 	panicked = verifPanics(func() { out = pkey(m, key) })
 	return
